@@ -25,6 +25,9 @@ def user_type(key, rows, form, rows2=None):
     n = len(_TYPES)
     cls = QuantityMeta('TT%d' % n, (Quantity,), {})
     units = {s: cls.new_unit('%s_%d' % (s, n)) for s in ('x', 'y', 'z')}
+    # units DEFINED through others in a type that converts by table only: no table row, no conversion
+    units['mx'] = cls.new_unit('mx_%d' % n, None, mk_amount([1, 1000], 'dec') * units['x'])
+    units['my'] = cls.new_unit('my_%d' % n, None, mk_amount([1, 1000], 'dec') * units['y'])
     for k, rws in enumerate([rows] + ([rows2] if rows2 is not None else [])):
         spec = [(units[r['f']], units[r['t']], mk_amount([unq(r['fac']).numerator, unq(r['fac']).denominator], r.get('frep', 'frac')),
                  mk_amount([unq(r['off']).numerator, unq(r['off']).denominator], r.get('orep', 'dec'))) for r in rws]
@@ -60,7 +63,12 @@ def run_case(c):
         o = dict(st='err', mro=[], a=qjson(0), u='', sametype=False, b=False)
         try:
             x = mk(c['a'], c['u'], c.get('rep', 'dec'))
-            if c['op'] == 'tconv':
+            if c['op'] == 'tconv' and c.get('how') == 'str':
+                # the same conversion spelt Quantity("<amount> <symbol>", unit)
+                f = unq(c['a'])
+                text = '%s %s' % (f.numerator if f.denominator == 1 else '%d/%d' % (f.numerator, f.denominator), units[c['u']].symbol)
+                r = cls(text, units[c['v']])
+            elif c['op'] == 'tconv':
                 r = x.convert(units[c['v']])
             else:
                 y = mk(c['b'], c['v'], c.get('rep2', 'frac'))
